@@ -244,6 +244,8 @@ def producers():
         ("tx.unroll(state)", lambda c: tx.unroll(c, 3, {sorted(c.outputs())[0]: sorted(c.inputs())[0]})[0]),
         ("tx.limit_fanin(limit_fanout)", lambda c: tx.limit_fanin(tx.limit_fanout(c, 2), 2)),
         ("add_blackbox(hierarchical pins)", _bb_hier),
+        ("io.verilog-fast(h constants)", _fast_h),
+        ("fill_blackbox(child with a nested blackbox)", _fill_nested),
         ("remove_unloaded(flop with dead logic)", _ru_flop),
         ("remove_unloaded(inputs=True)", _ru_plain),
     ]
@@ -270,6 +272,34 @@ def _with_flop(c):
     r.add("q_out", "and", fanin=["q_net", sorted(r.inputs())[0]], output=True)
     r.add_blackbox(cg.generic_flop, "ff0", {"clk": "clk_net", "d": sorted(c.outputs())[0], "q": "q_net"})
     return r
+
+
+def _fast_h(c):
+    """The fast parser on the writer's text with the constants respelt 1'h0 / 1'h1 (its docstring allows h)."""
+    import circuitgraph as cg
+
+    r = c.copy()
+    r.add("kk0", "0")
+    r.add("kk1", "1")
+    r.add("kout", "xor", fanin=["kk0", "kk1", sorted(r.inputs())[0]], output=True)
+    text = cg.io.circuit_to_verilog(r).replace("1'b0", "1'h0").replace("1'b1", "1'h1")
+    return cg.io.verilog_to_circuit(text, r.name, fast=True)
+
+
+def _fill_nested(c):
+    """Fill a blackbox with a child that itself holds a blackbox whose instance name differs from its type name."""
+    import circuitgraph as cg
+
+    if c.inputs() & c.outputs():
+        raise _Skip()
+    child = c.copy()
+    o = sorted(child.outputs())[0]
+    child.add("nq", "buf")
+    child.add("nq_out", "and", fanin=["nq", o], output=True)
+    child.add_blackbox(cg.BlackBox("dff", ["D"], ["Q"]), "r0", {"D": o, "Q": "nq"})
+    p = _bb_parent(child)
+    p.fill_blackbox("u", child)
+    return p
 
 
 def _bb_hier(c):
